@@ -808,3 +808,334 @@ Example header_styles_compile_identically :
   | _, _ => False
   end.
 Proof. vm_compute. reflexivity. Qed.
+
+(* =========================================================================================== *)
+(* WHOLE INPUT: legacy <<..>> forms and @ forms compile identically (Proofs/SurfaceForms*.v)         *)
+(* =========================================================================================== *)
+From Coq Require Import String Ascii List Bool Arith Lia.
+From Bardic Require Import PyStr Value Compiled Lex LexProofs.
+From Bardic Require Import ParseBase ParseLine ParseMain ParseCheck ParseProofs SurfaceProofs.
+From Bardic Require ParseBlocks ParseBlocksInst ParseAllProofs.
+From Bardic Require Import SurfaceFormsBase SurfaceForms.
+From Bardic Require Import SurfaceFormsPy.
+Module WholeInput.
+(* C17 (continued) -- legacy `<<...>>` forms versus `@...:` forms, WHOLE INPUT.
+
+   Props/C17.v part (c) says that one step of an extractor reads a legacy header and its @ form the same way.
+   This file carries the composition through the whole parser model (pre-pass, main loop, the extractors with
+   arbitrary nesting, dedented loop bodies):
+
+     legacy_and_at_forms_compile_identically
+         parse_real pp is_call (map to_at_form ls) = parse_real pp is_call ls      for ALL line lists ls with
+         admissible ls = true, all oracles: every legacy block header <<if C>> <<elif C>> <<else>> <<endif>>
+         <<for M>> <<endfor>> rewritten to its @ form.
+     legacy_and_at_forms_any_subset
+         the same for any subset of the headers rewritten (mixed styles).
+     legacy_and_at_forms_with_py_compile_identically
+         the same with the delimiters of Python blocks rewritten as well (`<<py` ... `>>` to `@py:` ... `@endpy`),
+         side condition admissible_full.
+
+   The side conditions are executable (bool), are met by ordinary stories (legacy_story below; 600 generated
+   nested legacy stories, all admissible_full, all compiled identically by the real compiler), and each part is
+   needed: the `..._needed` examples, every one of which was also compiled in both forms by the real compiler with
+   the outcome the model shows.  Two of them are defects of the compiler found by proving this file:
+     F17n  an indented legacy header inside the block of a `-> @join` choice is text, its @ form ends the block
+     F17o  an unclosed `<<py` block is accepted and swallows the rest of the source, an unclosed `@py:` is rejected
+   (proposed_fixes/F17n-legacy-headers-in-join-block.diff, proposed_fixes/F17o-unclosed-legacy-python-block.diff).
+
+   What the side condition is (Proofs/SurfaceFormsBase.v, SurfaceForms.v, SurfaceFormsPy.v):
+     hdr_ok l      (per line) if l is a legacy header, the compiler's own readers of the two header forms
+                   (match_legacy / match_colon_tail, match_for_legacy / match_for_colon) return the same condition or
+                   (variable, collection), and the comment scanner finds no `//` in either form.  This is exact for
+                   the header itself; legacy_if_header_ok / legacy_for_header_ok show that the conditions of part (c)
+                   (cond_ok, var_ok) meet it, hdr_ok_met that blanks around the condition, a single `/` and tuple
+                   targets do too.
+     headers_in_header_position pp ls
+                   the compiler's own control flow run on ls (pre-pass, main loop, extractors, with the real
+                   sub-extractors computing how many lines each construct consumes), with a test wherever a line
+                   is read verbatim: no legacy header is (1) a body line of an @py: / <<py block, (2) a continuation
+                   line of a multi-line ~ statement, (3) a line of the block of a `-> @join` choice, (4) an indented
+                   line of the @metadata block, (5) a text line (a closer or <<elif>>/<<else>> outside its block).
+                   It is evaluated with the oracle that accepts every ~ statement (pp_yes); that this suffices for
+                   every oracle is part of the theorem. *)
+Import ListNotations.
+Local Open Scope string_scope.
+
+Definition pp0 : pyparse := mkPyparse (fun _ => true) (fun _ => Some (0, [])).
+
+
+(* ------------------------------------------------------------------------------------------- *)
+(* (d) legacy `<<...>>` and `@...:` block headers: the whole input                               *)
+(* ------------------------------------------------------------------------------------------- *)
+(* Vocabulary (Proofs/SurfaceFormsBase.v, Proofs/SurfaceForms.v):
+     to_at_form l        a line whose stripped text is  <<if C>> | <<elif C>> | <<else>> | <<endif>> | <<for M>> |
+                         <<endfor>>  becomes  indentation ++  @if C: | @elif C: | @else: | @endif | @for M: | @endfor
+                         (trailing blanks dropped); every other line is returned unchanged
+     R l l'              l' = l  or  l' = to_at_form l
+     hdr_ok l            if l is such a legacy header: the compiler's own header readers give the same condition /
+                         (variable, collection) for both forms (match_legacy vs match_colon_tail, match_for_legacy vs
+                         match_for_colon), and the scanner finds no `//` in either form
+     headers_in_header_position pp ls
+                         the compiler's own control flow (pre-pass, main loop, the extractors, on ls), with one
+                         extra test wherever a line is taken verbatim: no legacy header is read as Python code
+                         (body of an @py:/<<py block, continuation line of a multi-line ~ statement), as text (in the
+                         block of a `-> @join` choice; a stray <<elif>>/<<else>>/<<endif>>/<<endfor>> outside its
+                         block), or as a key of the @metadata block
+     admissible ls       forallb hdr_ok ls && headers_in_header_position pp_yes ls *)
+
+Theorem legacy_and_at_forms_compile_identically : forall pp is_call ls,
+  admissible ls = true ->
+  ParseAllProofs.parse_real pp is_call (map to_at_form ls) = ParseAllProofs.parse_real pp is_call ls.
+Proof. exact legacy_and_at_forms_compile_identically_lemma. Qed.
+Print Assumptions legacy_and_at_forms_compile_identically.
+
+(* any subset of the legacy headers rewritten (mixed styles) *)
+Theorem legacy_and_at_forms_any_subset : forall pp is_call ls ls',
+  Forall2 R ls ls' -> admissible ls = true ->
+  ParseAllProofs.parse_real pp is_call ls' = ParseAllProofs.parse_real pp is_call ls.
+Proof. exact legacy_and_at_forms_mixed. Qed.
+Print Assumptions legacy_and_at_forms_any_subset.
+
+(* hdr_ok is met by the conditions of cond_ok / var_ok (part (c)), at any indentation, with trailing blanks *)
+Theorem legacy_if_header_ok : forall ind c t, all_space ind = true -> all_space t = true -> cond_ok c = true ->
+  hdr_ok (ind ++ ("<<if " ++ c ++ ">>") ++ t) = true /\ hdr_ok (ind ++ ("<<elif " ++ c ++ ">>") ++ t) = true.
+Proof. exact hdr_ok_if_line. Qed.
+Print Assumptions legacy_if_header_ok.
+
+Theorem legacy_for_header_ok : forall ind v coll t, all_space ind = true -> all_space t = true ->
+  var_ok v = true -> cond_ok coll = true ->
+  hdr_ok (ind ++ ("<<for " ++ (v ++ " in " ++ coll) ++ ">>") ++ t) = true.
+Proof. exact hdr_ok_for_line. Qed.
+Print Assumptions legacy_for_header_ok.
+
+(* ... and by more than that: blanks around the condition, a single `/`, tuple targets *)
+Example hdr_ok_met :
+  map hdr_ok ["<<if hp > 1>>"; "  <<if  x >>  "; "<<if n / 2 > 1>>"; "<<elif d['a:b'] > 2>>";
+              "<<for k, v in d.items()>>"; "<<else>>"; "plain text"; "@if a >> 1:"] =
+  [true; true; true; true; true; true; true; true].
+Proof. vm_compute. reflexivity. Qed.
+
+Example to_at_form_examples :
+  map to_at_form ["  <<if hp > 1>>  "; "<<elif x>>"; " <<else>>"; "<<endif>>"; "<<for k, v in d.items()>>"; "<<endfor>>";
+                  "text <<if x>>"; "@if x:"; "<<py"; ">>"; "<<if x>> // c"] =
+  ["  @if hp > 1:"; "@elif x:"; " @else:"; "@endif"; "@for k, v in d.items():"; "@endfor";
+   "text <<if x>>"; "@if x:"; "<<py"; ">>"; "<<if x>> // c"].
+Proof. vm_compute. reflexivity. Qed.
+
+(* non-vacuity: a story in the legacy style with nested blocks (a loop in a conditional, a conditional with three
+   branches in that loop, a multi-line ~ statement in a branch), both Python block forms, a `-> @join` choice, a
+   multi-line ~ statement, comments, trailing blanks after a header *)
+Definition legacy_story : list string :=
+  ["import random"; "# preamble"; ":: Start ^intro"; "You have {hp} hp.";
+   "~ items = ["; "    1,"; "    2"; "]";
+   "@py:"; "  z = 9 // 2"; "@endpy"; "<<py"; "  q = 1 >> 1"; ">>";
+   "<<if hp > 1>>   "; "  You live."; "  <<for i in items>>"; "    <<if i == 1>>"; "      one<>"; "    <<elif i == 2>>";
+   "      ~ t = ["; "        i]"; "    <<else>>"; "      many"; "    <<endif>>"; "  <<endfor>>"; "  -> End"; "<<else>>";
+   "  + [Again] -> Start"; "<<endif>>";
+   "<<for k, v in pairs>>"; "  {k}<>"; "  <<py"; "  w = 1"; "  >>"; "<<endfor>>";
+   "* [Rest] -> @join"; "    You rest."; "@join"; "+ [Go] -> End"; "-> End";
+   ":: End"; "Bye. // old comment"; ""].
+
+Example legacy_story_admissible : admissible legacy_story = true.
+Proof. vm_compute. reflexivity. Qed.
+
+Example legacy_story_in_at_form :
+  firstn 12 (skipn 14 (map to_at_form legacy_story)) =
+  ["@if hp > 1:"; "  You live."; "  @for i in items:"; "    @if i == 1:"; "      one<>"; "    @elif i == 2:";
+   "      ~ t = ["; "        i]"; "    @else:"; "      many"; "    @endif"; "  @endfor"].
+Proof. vm_compute. reflexivity. Qed.
+
+Example legacy_story_by_theorem : forall pp is_call,
+  ParseAllProofs.parse_real pp is_call (map to_at_form legacy_story) = ParseAllProofs.parse_real pp is_call legacy_story.
+Proof. intros. apply legacy_and_at_forms_compile_identically. exact legacy_story_admissible. Qed.
+
+Example legacy_story_compiles :
+  match ParseAllProofs.parse_real pp0 (fun _ => true) legacy_story with
+  | POk a => List.length (passages a) = 2 /\
+      option_map (fun p => List.length (content p)) (lookup "Start" (passages a)) = Some 8
+  | _ => False
+  end.
+Proof. vm_compute. split; reflexivity. Qed.
+
+(* mixed styles: only the outer conditional rewritten *)
+Example legacy_story_mixed : forall pp is_call,
+  let sel := fun l => String.eqb l "<<if hp > 1>>   " || String.eqb l "<<else>>" || String.eqb l "<<endif>>" in
+  ParseAllProofs.parse_real pp is_call (map (fun l => if sel l then to_at_form l else l) legacy_story) =
+  ParseAllProofs.parse_real pp is_call legacy_story.
+Proof.
+  intros pp is_call sel. apply legacy_and_at_forms_any_subset; [apply Forall2_R_map_sel|exact legacy_story_admissible].
+Qed.
+Example legacy_story_mixed_looks_like :
+  let sel := fun l => String.eqb l "<<if hp > 1>>   " || String.eqb l "<<else>>" || String.eqb l "<<endif>>" in
+  firstn 4 (skipn 14 (map (fun l => if sel l then to_at_form l else l) legacy_story)) =
+  ["@if hp > 1:"; "  You live."; "  <<for i in items>>"; "    <<if i == 1>>"].
+Proof. vm_compute. reflexivity. Qed.
+
+(* ---- each part of the side condition is needed (every pair below was also compiled by the real compiler, with
+        the same outcome as the model's) ---- *)
+Definition differ (ls : list string) : Prop :=
+  match ParseAllProofs.parse_real pp0 (fun _ => true) ls,
+        ParseAllProofs.parse_real pp0 (fun _ => true) (map to_at_form ls) with
+  | POk a, POk b => story_eqb a b = false
+  | _, _ => False
+  end.
+
+(* hdr_ok, readers agree: `>>` inside the condition closes the legacy header early (condition `a`, not `a >> 1`) *)
+Example shift_in_condition_needed :
+  let ls := [":: S"; "<<if a >> 1>>"; "x"; "<<endif>>"] in
+  hdr_ok "<<if a >> 1>>" = false /\ admissible ls = false /\ differ ls.
+Proof. vm_compute. repeat split; reflexivity. Qed.
+(* hdr_ok, no `//`: the pre-pass cuts the header at `//`; both forms are rejected, with different diagnostics *)
+Example comment_in_condition_needed :
+  let ls := [":: S"; "<<if n // 2>>"; "x"; "<<endif>>"] in
+  hdr_ok "<<if n // 2>>" = false /\ admissible ls = false /\
+  ParseAllProofs.parse_real pp0 (fun _ => true) ls = PDiag (DSyntax "if-missing-close" 1) /\
+  ParseAllProofs.parse_real pp0 (fun _ => true) (map to_at_form ls) = PDiag (DSyntax "if-missing-colon" 1).
+Proof. vm_compute. repeat split; reflexivity. Qed.
+(* position: inside a Python block the line is Python code *)
+Example legacy_header_in_python_block_needed :
+  let ls := [":: S"; "@py:"; "<<endif>>"; "@endpy"] in
+  forallb hdr_ok ls = true /\ admissible ls = false /\ differ ls.
+Proof. vm_compute. repeat split; reflexivity. Qed.
+(* position: a continuation line of a multi-line ~ statement is Python code *)
+Example legacy_header_in_statement_needed :
+  let ls := [":: S"; "~ x = ["; "'''"; "<<endif>>"; "''']"] in
+  forallb hdr_ok ls = true /\ admissible ls = false /\ differ ls.
+Proof. vm_compute. repeat split; reflexivity. Qed.
+(* position: in the block of a `-> @join` choice the legacy header is TEXT, its @ form ends the block and opens a
+   conditional -- defect F17n of the compiler (proposed_fixes/F17n-legacy-headers-in-join-block.diff) *)
+Example legacy_header_in_join_block_needed :
+  let ls := [":: S"; "* [R] -> @join"; "    <<if x>>"; "    a"; "    <<endif>>"; "@join"; "after"] in
+  forallb hdr_ok ls = true /\ admissible ls = false /\ differ ls /\
+  match ParseAllProofs.parse_real pp0 (fun _ => true) ls with
+  | POk a => option_map (fun p => map ch_block (choices p)) (lookup "S" (passages a)) =
+             Some [[TText "<<if x>>"; TText ParseMain.nl; TText "a"; TText ParseMain.nl; TText "<<endif>>"; TText ParseMain.nl]]
+  | _ => False
+  end.
+Proof. vm_compute. repeat split; reflexivity. Qed.
+(*   ... while a header indented no more than the choice ends the block in either form: admissible *)
+Example legacy_header_after_join_block_fine :
+  admissible [":: S"; "* [R] -> @join"; "    a"; "<<if x>>"; "b"; "<<endif>>"; "@join"; "after"] = true.
+Proof. vm_compute. reflexivity. Qed.
+(* position: inside the @metadata block an indented `@if x:` is a key, `<<if x>>` is not *)
+Example legacy_header_in_metadata_needed :
+  let ls := ["@metadata"; "  <<if x>>"; ":: S"; "t"] in
+  forallb hdr_ok ls = true /\ admissible ls = false /\ differ ls.
+Proof. vm_compute. repeat split; reflexivity. Qed.
+(* position: a closer without its block is a text line, and the two texts differ *)
+Example stray_endif_needed :
+  let ls := [":: S"; "<<endif>>"] in forallb hdr_ok ls = true /\ admissible ls = false /\ differ ls.
+Proof. vm_compute. repeat split; reflexivity. Qed.
+Example stray_endfor_in_conditional_needed :
+  let ls := [":: S"; "<<if x>>"; "<<endfor>>"; "<<endif>>"] in forallb hdr_ok ls = true /\ admissible ls = false /\ differ ls.
+Proof. vm_compute. repeat split; reflexivity. Qed.
+Example stray_else_in_loop_needed :
+  let ls := [":: S"; "<<for i in x>>"; "<<else>>"; "<<endfor>>"] in forallb hdr_ok ls = true /\ admissible ls = false /\ differ ls.
+Proof. vm_compute. repeat split; reflexivity. Qed.
+(* headers before the first passage are skipped in either form: admissible *)
+Example legacy_header_in_preamble_fine : admissible ["<<if x>>"; ":: S"; "t"] = true.
+Proof. vm_compute. reflexivity. Qed.
+
+(* ------------------------------------------------------------------------------------------- *)
+(* (e) ... and the delimiters of Python blocks: `<<py` ... `>>` versus `@py:` ... `@endpy`       *)
+(* ------------------------------------------------------------------------------------------- *)
+(* Vocabulary (Proofs/SurfaceFormsPy.v):
+     to_at_full l        to_at_form l, and a line whose stripped text is `<<py` / `>>` becomes indentation ++ `@py:` /
+                         `@endpy`
+     py_plain_line l     a line that some pass of the compiler reads as a delimiter of a legacy Python block (its
+                         stripped text, or its text without trailing comment, begins with `<<py` or is `>>`) is
+                         written plainly: exactly `<<py` or `>>`
+     pre_chk ls ...      the comment pre-pass, run on ls: inside a legacy block no line reads `@endpy`, inside an
+                         @py: block no line reads `>>`
+     rewritten_lines_in_position pp ls
+                         as headers_in_header_position, for headers and delimiters; a legacy Python block that is
+                         entered must be closed and contain no line reading `@endpy` (legacy_py_ok)
+     admissible_full ls  forallb hdr_ok ls && forallb py_plain_line ls && pre_chk ls None false 0 &&
+                         rewritten_lines_in_position pp_yes ls *)
+
+Theorem legacy_and_at_forms_with_py_compile_identically : forall pp is_call ls,
+  admissible_full ls = true ->
+  ParseAllProofs.parse_real pp is_call (map to_at_full ls) = ParseAllProofs.parse_real pp is_call ls.
+Proof. exact legacy_and_at_forms_with_py_compile_identically_lemma. Qed.
+Print Assumptions legacy_and_at_forms_with_py_compile_identically.
+
+(* the two extractors compute the same code: the line-by-line dedent of _extract_py_old_syntax is the dedent
+   of detect_and_strip_indentation followed by the blank-line rule of _extract_py_new_syntax *)
+Theorem legacy_python_dedent_is_block_dedent : forall ls,
+  old_adj None ls = map ParseBlocks.blank_to_empty (detect_and_strip_indentation ls).
+Proof. exact old_adj_none. Qed.
+Print Assumptions legacy_python_dedent_is_block_dedent.
+
+Example to_at_full_examples :
+  map to_at_full ["  <<py  "; "  >>"; "<<if x>>"; "<<python"; "<<py // c"; ">> 1"; "x >> 1"; "@py:"] =
+  ["  @py:"; "  @endpy"; "@if x:"; "<<python"; "<<py // c"; ">> 1"; "x >> 1"; "@py:"].
+Proof. vm_compute. reflexivity. Qed.
+
+Example legacy_story_admissible_full : admissible_full legacy_story = true.
+Proof. vm_compute. reflexivity. Qed.
+
+Example legacy_story_in_full_at_form :
+  firstn 6 (skipn 8 (map to_at_full legacy_story)) = ["@py:"; "  z = 9 // 2"; "@endpy"; "@py:"; "  q = 1 >> 1"; "@endpy"] /\
+  firstn 6 (skipn 30 (map to_at_full legacy_story)) = ["@for k, v in pairs:"; "  {k}<>"; "  @py:"; "  w = 1"; "  @endpy"; "@endfor"].
+Proof. vm_compute. split; reflexivity. Qed.
+
+Example legacy_story_full_by_theorem : forall pp is_call,
+  ParseAllProofs.parse_real pp is_call (map to_at_full legacy_story) = ParseAllProofs.parse_real pp is_call legacy_story.
+Proof. intros. apply legacy_and_at_forms_with_py_compile_identically. exact legacy_story_admissible_full. Qed.
+
+(* a Python block with relative indentation, a blank line, an under-indented line, inside an indented @if body *)
+Definition py_in_if : list string :=
+  [":: S"; "<<if flag>>"; "  <<py"; "      s = '''"; ""; "    a"; "      '''"; "      if s:"; "          t = 1"; "  >>"; "<<endif>>"].
+Example py_in_if_admissible : admissible_full py_in_if = true /\
+  match ParseAllProofs.parse_real pp0 (fun _ => true) py_in_if with
+  | POk a => option_map content (lookup "S" (passages a)) =
+      Some [TCond [Branch "flag" [TPyBlock ("s = '''" ++ ParseMain.nl ++ ParseMain.nl ++ "  a" ++ ParseMain.nl ++ "'''" ++ ParseMain.nl ++
+                                            "if s:" ++ ParseMain.nl ++ "    t = 1")] []]]
+  | _ => False
+  end.
+Proof. vm_compute. split; reflexivity. Qed.
+
+Definition differ_full (ls : list string) : Prop :=
+  match ParseAllProofs.parse_real pp0 (fun _ => true) ls,
+        ParseAllProofs.parse_real pp0 (fun _ => true) (map to_at_full ls) with
+  | POk a, POk b => story_eqb a b = false
+  | _, _ => False
+  end.
+
+(* py_plain_line: `<<py // note` is an opener for the compiler (the pre-pass drops the comment) but is not rewritten,
+   its `>>` is: the block is left without its closer *)
+Example decorated_python_opener_needed :
+  let ls := [":: S"; "<<py // note"; "x = 1"; ">>"; "t"] in
+  forallb py_plain_line ls = false /\ admissible_full ls = false /\ differ_full ls.
+Proof. vm_compute. repeat split; reflexivity. Qed.
+(* pre_chk / legacy_py_ok: a line reading `@endpy` inside a legacy block closes the rewritten block early *)
+Example endpy_in_legacy_block_needed :
+  let ls := [":: S"; "<<py"; "s = '''"; "@endpy"; "'''"; ">>"] in
+  forallb py_plain_line ls = true /\ pre_chk ls None false 0 = false /\ admissible_full ls = false /\ differ_full ls.
+Proof. vm_compute. repeat split; reflexivity. Qed.
+(* pre_chk: a line reading `>>` inside an @py: block is rewritten to `@endpy` and closes that block early *)
+Example closer_in_at_block_needed :
+  let ls := [":: S"; "@py:"; "s = '''"; ">>"; "'''"; "@endpy"] in
+  forallb py_plain_line ls = true /\ pre_chk ls None false 0 = false /\ admissible_full ls = false /\ differ_full ls.
+Proof. vm_compute. repeat split; reflexivity. Qed.
+(* legacy_py_ok: an unclosed legacy block is ACCEPTED and swallows the rest of the source, the @py: form is rejected
+   -- defect F17o of the compiler (proposed_fixes/F17o-unclosed-legacy-python-block.diff) *)
+Example unclosed_legacy_python_block_needed :
+  let ls := [":: S"; "<<py"; "x = 1"; ":: T"; "t"] in
+  forallb py_plain_line ls = true /\ pre_chk ls None false 0 = true /\ admissible_full ls = false /\
+  match ParseAllProofs.parse_real pp0 (fun _ => true) ls with
+  | POk a => map fst (passages a) = ["S"] /\
+             option_map execute (lookup "S" (passages a)) = Some [TPyBlock ("x = 1" ++ ParseMain.nl ++ ":: T" ++ ParseMain.nl ++ "t")]
+  | _ => False
+  end /\
+  ParseAllProofs.parse_real pp0 (fun _ => true) (map to_at_full ls) = PDiag (DSyntax "py-unclosed" 1).
+Proof. vm_compute. repeat split; reflexivity. Qed.
+(* position: a `>>` that closes nothing is a text line *)
+Example stray_python_closer_needed :
+  let ls := [":: S"; ">>"] in forallb py_plain_line ls = true /\ admissible_full ls = false /\ differ_full ls.
+Proof. vm_compute. repeat split; reflexivity. Qed.
+(* position: a legacy header inside a legacy Python block is Python code *)
+Example legacy_header_in_legacy_python_block_needed :
+  let ls := [":: S"; "<<py"; "<<endif>>"; ">>"] in admissible_full ls = false /\ differ_full ls.
+Proof. vm_compute. repeat split; reflexivity. Qed.
+End WholeInput.
